@@ -13,7 +13,6 @@ parsers; the loaded spans must be the 0-based half-open originals.
 import collections
 import copy
 import io
-import json
 import os
 import pickle
 import random
@@ -32,7 +31,9 @@ RULE = (
     "nest, coincide), built by add_feature, add_records, GFF3 / GenBank text generated from the model and loaded with "
     "load_annotations (seqids filter, lines_per_block, write_path, glob, db=) or gff_parser / minimal_parser + constructor, "
     "followed by 1-8 steps of update(seqids) / union / subset / copy / deepcopy / pickle / to_rich_dict / to_json / "
-    "write+reload, some without an intervening read. After every step len, all records, all features, biotype_counts and "
+    "write+reload, some without an intervening read; plus a few directed histories per run that reach named classes for "
+    "certain (empty db, incompatible-class refusals, persistence right after an unread update/union, lines_per_block "
+    "splitting the rows of one ID, GenBank glob / multi-record file, loading into a file-backed db). After every step len, all records, all features, biotype_counts and "
     "the start/stop columns are compared with the list model; the final state (and a sample after each step) is queried "
     "with get_records_matching / get_features_matching / num_matches / subset / count_distinct: all 256 presence subsets "
     "of (seqid, biotype, name, strand, attributes, on_alignment, start, stop) x allow_partial, values as equality / IN "
@@ -62,7 +63,6 @@ ASSUMPTIONS = [
 ]
 TIMEOUT = {"quick": 900, "thorough": 7200}
 
-MAIN_TABLE = {"Basic": "user", "Gff": "gff", "Genbank": "gb"}
 SEQIDS = ["s1", "s2", "chr_3"]
 BIOTYPES = ["gene", "exon", "CDS", "mRNA"]
 NAMES = ["a", "b", "ab", "A", "g.1", "x'y", 'q"r', "näme", "a b", "b;c"]
@@ -715,6 +715,13 @@ def gen_directed(rng, which):
                     ids[m.group(1)].add(ln // n)
             st["splits_a_record"] = any(len(v) > 1 for v in ids.values())
             out.append({"cls": rng.choice(["Gff", "Basic"]), "source": "memory", "steps": [st]})
+    elif which == "file-backed":
+        for cls, via in (("Gff", "load_annotations"), ("Gff", "parser-data"), ("Genbank", "load_annotations"), ("Genbank", "parser-data")):
+            st = gen_load_step(rng, cls, seqids, hi, "quick", "d")
+            st["via"] = via
+            for k in ("lines_per_block", "seqids", "splits_a_record", "layout"):
+                st.pop(k, None)
+            out.append({"cls": "Basic", "source": "file", "steps": [feats(rng.randint(1, 3)), st, {"op": rng.choice(PERSIST)}]})
     elif which == "gb-files":
         for layout in ("glob", "multi-record-file", "one-by-one"):
             while True:
@@ -727,7 +734,7 @@ def gen_directed(rng, which):
     return out
 
 
-DIRECTED = ["empty", "refusals", "unread", "blocks", "gb-files"]
+DIRECTED = ["empty", "refusals", "unread", "blocks", "gb-files", "file-backed"]
 
 
 def gen_cases(rng, tier):
@@ -785,6 +792,7 @@ class Ctx:
         self.done = []  # steps executed so far (descriptors)
         self.nfile = 0
         self.prev_op = None
+        self.opc_override = None  # set by a step whose db state names the class better than the step does
 
     def path(self, suffix):
         self.nfile += 1
@@ -821,7 +829,7 @@ def op_class(step):
 def observe(ctx, db, model, step, light=False):
     """compare everything observable without arguments; raises Diverged after recording the witness"""
     res = ctx.res
-    opc = op_class(step)
+    opc = ctx.opc_override or op_class(step)
     any_wild = any(r.get("wild") for r in model)
 
     def bad(what, **detail):
@@ -853,8 +861,8 @@ def observe(ctx, db, model, step, light=False):
                 # a record class the generator plants on purpose: name the mechanism after it, whatever the load route
                 opc = f"load-{step['fmt']}/{form}"
                 form = ""
-            elif step.get("splits_a_record") or step["fmt"] == "gff":
-                form = ""  # how many rows a gff record has does not name a cause
+            elif step.get("splits_a_record") or step["fmt"] == "gff" or step.get("layout") == "multi-record-file":
+                form = ""  # how many rows a gff record has / how a location is written does not name the cause here
             else:
                 form = ":" + form if form else ""
         bad(f"{d[0] if d[0].startswith('record-') else 'records-' + d[0]}{form}", record=d[1], got=sorted(got.elements(), key=repr)[:30])
@@ -1026,6 +1034,9 @@ def apply_step(ctx, db, model, st, nested=False):
         return db, model + [model_of_user(r, on_aln_default=None) for r in st["recs"]]
     if op == "load":
         want = {"gff": "Gff", "gb": "Genbank"}[st["fmt"]]
+        if cur == "Basic" and db.source not in (None, ":memory:"):
+            res.count("load:into-file-backed-basic-db")
+            ctx.opc_override = f"load-{st['fmt']}/into-file-backed-basic-db"
         if cur not in ("Basic", want):
             try:
                 apply_load(ctx, db, model, st)
@@ -1152,8 +1163,7 @@ def apply_step(ctx, db, model, st, nested=False):
         res.witness(f"C17/{op}/class-changed", got=_cls_name(new), replay_case=ctx.replay(step=st))
         raise Diverged
     # the source must be unaffected by what happens to the copy: keep it for an independence check
-    st_src = (db, model)
-    ctx.last_source = st_src
+    ctx.last_source = (db, model)
     return new, model
 
 
@@ -1203,15 +1213,18 @@ def minimise(db, model, fn, q, verdict):
     """greedy: drop arguments while the same kind of failure persists (names the responsible arguments)"""
     kind = verdict[0] if verdict[0] != "exc" else "exc:" + type(verdict[1]).__name__
     q = dict(q)
-    for k in list(q):
-        q2 = {a: b for a, b in q.items() if a != k}
-        if "start" in q2 and "stop" in q2 and q2["start"] == q2["stop"] and q2.get("allow_partial"):
-            continue
-        if fn == "subset" and "on_alignment" in q2:
-            continue
-        v2 = judge(db, model, fn, q2)
-        if v2 is not None and (v2[0] if v2[0] != "exc" else "exc:" + type(v2[1]).__name__) == kind:
-            q, verdict = q2, v2
+    changed = True
+    while changed:  # until no single argument can be dropped any more
+        changed = False
+        for k in list(q):
+            q2 = {a: b for a, b in q.items() if a != k}
+            if "start" in q2 and "stop" in q2 and q2["start"] == q2["stop"] and q2.get("allow_partial"):
+                continue
+            if fn == "subset" and "on_alignment" in q2:
+                continue
+            v2 = judge(db, model, fn, q2)
+            if v2 is not None and (v2[0] if v2[0] != "exc" else "exc:" + type(v2[1]).__name__) == kind:
+                q, verdict, changed = q2, v2, True
     return q, verdict
 
 
@@ -1260,48 +1273,51 @@ def check_query(ctx, db, model, q, fns, sweep):
         res.sig(cls, mask_of(q), edge[0] if edge else "no-edge", int(bool(q.get("allow_partial"))))
 
 
-def check_count_distinct(ctx, db, model, rng):
+def check_one_count_distinct(ctx, db, model, kw):
     res = ctx.res
     any_wild = any(r.get("wild") for r in model)
+    cols = [c for c in ("seqid", "biotype", "name") if kw.get(c) is True]
+    cons = {c: v for c, v in kw.items() if v is not True}
+    rc = ctx.replay(count_distinct=kw)
+    res.evals += 1
+    res.count("query:count_distinct")
+    try:
+        tab = db.count_distinct(**kw)
+        header = list(tab.header)
+        data = list(zip(*[tab.columns[c].tolist() for c in header])) if tab.shape[0] else []
+    except Exception as e:  # noqa: BLE001
+        res.witness(exc_mechanism("C17/count_distinct", e), kwargs=kw, error=repr(e)[:300], replay_case=rc)
+        return
+    got = collections.Counter()
+    for row in data:
+        d = dict(zip(header, row))
+        key = tuple(("*" if c == "name" and any_wild and FAKE.fullmatch(d[c] or "") else d[c]) for c in cols)
+        got[key] += int(d["count"])
+    if len({tuple(dict(zip(header, row))[c] for c in cols) for row in data}) < len(data):
+        # "counts of distinct values": one value combination, one row
+        res.witness("C17/count_distinct/key-on-several-rows", db_class=_cls_name(db), kwargs=kw, rows=sorted(data, key=repr)[:20], replay_case=rc)
+    exp = collections.Counter()
+    for r in model:
+        mm = match(r, cons)
+        if mm is None:
+            return  # G: a constraint whose answer is unspecified for some record
+        if mm:
+            exp[tuple(("*" if c == "name" and r.get("wild") else r[c]) for c in cols)] += 1
+    if got != exp:
+        res.witness("C17/count_distinct/counts-differ", kwargs=kw, got=sorted(got.items(), key=repr)[:20], expected=sorted(exp.items(), key=repr)[:20], replay_case=rc)
+
+
+def check_count_distinct(ctx, db, model, rng):
+    res = ctx.res
     cols_all = ["seqid", "biotype", "name"]
     for m in range(1, 8):
         cols = [c for i, c in enumerate(cols_all) if m >> i & 1]
         kw = {c: True for c in cols}
-        cons = {}
         for c in cols_all:
             if c not in cols and rng.random() < 0.5:
                 pool = sorted({r[c] for r in model if r[c] is not None}) or ["a"]
-                cons[c] = rng.choice(pool + ["zz"])
-        kw.update(cons)
-        res.evals += 1
-        res.count("query:count_distinct")
-        try:
-            tab = db.count_distinct(**kw)
-            header = list(tab.header)
-            data = list(zip(*[tab.columns[c].tolist() for c in header])) if tab.shape[0] else []
-        except Exception as e:  # noqa: BLE001
-            res.witness(exc_mechanism("C17/count_distinct", e), kwargs=kw, error=repr(e)[:300], replay_case=ctx.replay())
-            continue
-        got = collections.Counter()
-        for row in data:
-            d = dict(zip(header, row))
-            key = tuple(("*" if c == "name" and any_wild and FAKE.fullmatch(d[c] or "") else d[c]) for c in cols)
-            got[key] += int(d["count"])  # G: how the counts are laid out over rows is unspecified; totals per key are compared
-        if len({tuple(dict(zip(header, row))[c] for c in cols) for row in data}) < len(data):
-            # "counts of distinct values": one value combination, one row
-            res.witness("C17/count_distinct/key-on-several-rows", db_class=_cls_name(db), kwargs=kw, rows=sorted(data, key=repr)[:20], replay_case=ctx.replay())
-        exp = collections.Counter()
-        amb = False
-        for r in model:
-            mm = match(r, cons)
-            if mm is None:
-                amb = True
-            if mm:
-                exp[tuple(("*" if c == "name" and r.get("wild") else r[c]) for c in cols)] += 1
-        if amb:
-            continue
-        if got != exp:
-            res.witness("C17/count_distinct/counts-differ", kwargs=kw, got=sorted(got.items(), key=repr)[:20], expected=sorted(exp.items(), key=repr)[:20], replay_case=ctx.replay())
+                kw[c] = rng.choice(pool + ["zz"])
+        check_one_count_distinct(ctx, db, model, kw)
     res.evals += 1
     try:
         none = db.count_distinct()
@@ -1365,7 +1381,7 @@ def window_sweep(ctx, db, model, rng, npairs):
 # cases
 
 
-def run_history(res, hist, rng, tier, query=None, fn=None, final_sweep=True):
+def run_history(res, hist, rng, tier, query=None, fn=None, final_sweep=True, count_distinct=None):
     tmp = tempfile.mkdtemp(prefix="c17-", dir=".")
     ctx = Ctx(res, hist, tmp)
     cls = hist["cls"]
@@ -1385,6 +1401,7 @@ def run_history(res, hist, rng, tier, query=None, fn=None, final_sweep=True):
         for st in hist["steps"]:
             ctx.done.append(st)
             ctx.last_source = None
+            ctx.opc_override = None
             try:
                 db, model = apply_step(ctx, db, model, st)
             except Diverged:
@@ -1431,7 +1448,9 @@ def run_history(res, hist, rng, tier, query=None, fn=None, final_sweep=True):
             res.count("db:shared-names")
         if any(len(r["spans"]) > 1 for r in model):
             res.count("db:multi-span")
-        if query is not None:
+        if count_distinct is not None:
+            check_one_count_distinct(ctx, db, model, count_distinct)
+        elif query is not None:
             check_query(ctx, db, model, query, (fn,), "replay")
         elif final_sweep and rng is not None:
             query_sweep(ctx, db, model, rng, tier, full=True)
@@ -1445,7 +1464,7 @@ def run_case(case):
     tier = os.environ.get("VERIF_TIER", "quick")
     if kind == "history":
         # replay of one witness
-        run_history(res, case["hist"], random.Random(0) if "query" not in case else None, tier, query=case.get("query"), fn=case.get("fn"), final_sweep="query" not in case and case.get("sweep", False))
+        run_history(res, case["hist"], random.Random(0) if case.get("sweep") else None, tier, query=case.get("query"), fn=case.get("fn"), final_sweep=bool(case.get("sweep")), count_distinct=case.get("count_distinct"))
         return res
     rng = random.Random(case["seed"])
     if kind == "histories":
@@ -1535,6 +1554,7 @@ def required(counters, tier):
         "db:shared-names",
         "db:multi-span",
         "db:file-backed",
+        "load:into-file-backed-basic-db",
         "records:0",
         "records:13+",
         "op:add_feature",
